@@ -17,7 +17,7 @@ from .c06 import nondefault
 LEVEL = "exploration"
 QUICK_SHARDS = 4
 RULE = (
-    "Histories: a message obtained by {constructor from a value tree, parse of reference bytes with generated unknown "
+    "Histories: a message obtained by {constructor from a value tree, in-place mutation of lazily created members, parse of reference bytes with generated unknown "
     "records interleaved, from_dict of its own to_dict} then a generated sequence of observers {read every attribute "
     "incl. lazily defaulted nested ones (depth 3), bytes, len, == with itself / with an independently built equal "
     "message, bool, repr, to_dict (both casings, include_default_values on/off), to_json, to_pydict}, then "
@@ -49,6 +49,8 @@ def targets(ctx):
         mi = schema.msg(f"ks.{name}")
         if source == "construct":
             return guard("construct", adapter.build, cls, mi, tree)
+        if source == "lazy":
+            return guard("construct_lazy", adapter.build, cls, mi, tree, "lazy")
         if source == "parse":
             recs = wire.parse_records(to_ref(schema, c.ref, mi.full_name, tree).SerializeToString(deterministic=True))
             recs = cm.interleave(recs, [cm.unknown_to_record(u) for u in unknown], pos)
@@ -271,7 +273,7 @@ def targets(ctx):
     @st.composite
     def strat(draw):
         case = dict(draw(base))
-        case["source"] = draw(st.sampled_from(["construct", "parse", "parse", "from_dict"]))
+        case["source"] = draw(st.sampled_from(["construct", "lazy", "parse", "parse", "from_dict"]))
         if case["source"] == "parse":
             mi = schema.msg(f"ks.{case['msg']}")
             us = draw(st.lists(cm.unknown_record_strategy(cm.unused_numbers(mi)), max_size=2))
